@@ -200,7 +200,12 @@ pub fn eval(expr: Node) -> Result<Number, Box<dyn error::Error>> {
             let b = eval(*expr2)?;
             match a {
                 Number::Integer(value_a) => match b {
-                    Number::Integer(value_b) => Ok(Number::Integer(value_a % value_b)),
+                    Number::Integer(value_b) => match value_a.checked_rem(value_b) {
+                        Some(r) => Ok(Number::Integer(r)),
+                        None if value_b == 0 => Ok(Number::Float((value_a as f64) % (value_b as f64))),
+                        // i64::MIN % -1
+                        None => Ok(Number::Integer(0)),
+                    },
                     Number::Float(value_b) => Ok(Number::Float((value_a as f64) % value_b)),
                 },
                 Number::Float(value_a) => match b {
